@@ -53,6 +53,27 @@ def gen_cases(ctx):
                     cases.append(Case("%s_p%d_pre%d_%d_rs" % (ind, p, mult, len(cases)), [new_op(0, ind, pr)] + pre + [("r", 0)] + fl, dump=(),
                                       meta={"ind": ind, "p": pp, "npre": npre, "flen": flen, "lvl": lvl, "bars": bars, "vol": vol,
                                             "stretches": [(a + 1, b, c_) for (a, b, c_) in stretches], "reset": True}))
+    # seed-independent: activity a million times above the flat level, then reset(), then the flat stretch — whatever a reset leaves
+    # behind (a running mean, a buffer, a sum) shows as a residue on the flat window of the instance's new life
+    for ind in ALL:
+        if nper(ind) == 0:
+            continue
+        for p in (2, 3, 5):
+            for lvl in (4.3, 37.3, 0.7):
+                k = nper(ind)
+                pr = (p, 3 if k >= 2 else 0, 2 if k >= 3 else 0, 2.0 if ind in HAS_MULT else 0.0)
+                hi = [1e6 * lvl * (1.0 + 0.1 * i) for i in range(2 * p + 3)]
+                bars = ind in NO_SCALAR
+                flen = p + 12
+                if bars:
+                    pre = [("b", 0, v, v * 1.01, v * 0.99, v, 7.0) for v in hi]
+                    fl = [("b", 0, lvl, lvl, lvl, lvl, 5.0)] * flen
+                else:
+                    pre = [("n", 0, v) for v in hi]
+                    fl = [("n", 0, lvl)] * flen
+                cases.append(Case("RS_%s_p%d_%g" % (ind, p, lvl), [new_op(0, ind, pr)] + pre + [("r", 0)] + fl, dump=(),
+                                  meta={"ind": ind, "p": p, "npre": len(pre), "flen": flen, "lvl": lvl, "bars": bars, "vol": 5.0,
+                                        "stretches": [(len(pre) + 1, flen, lvl)], "reset": True}))
     # flat stretches long enough for the exponential averages to underflow (the 0.1 seeds of RSI reach the subnormals after
     # ~700 (n=2) ... ~5000 (n=14) equal inputs): from fresh and after activity
     for ind in ("RSI", "EMA", "SLOW", "MACD", "PPO", "ATR", "KC"):
@@ -90,6 +111,9 @@ def check_impl(ctx, cases):
             need = None      # recursive averages: only finiteness / range is required
         vals = []
         for o in c.ops[1:]:
+            if o[0] == "r":
+                vals = []        # a reset starts a new life: the largest magnitude seen restarts with it
+                continue
             vals += [abs(x) for x in (o[2:3] if o[0] == "n" else o[3:6])]
         M = max(vals + [1e-300])
         for (sstart, slen, lvl), j in [(st_, j_) for st_ in c.meta["stretches"] for j_ in range(st_[1])]:
